@@ -22,9 +22,14 @@ func (run *FuncRun) execCall(st *State, in *ssa.Call, b *ssa.BasicBlock, idx int
 		}
 		run.addObligation(st, "nil", "invoke", Neq(recv, NilAny), "method call on nil interface", run.posOf(in))
 		st.Assume(Neq(recv, NilAny))
+		// dispatch on a statically known dynamic type first
+		if fn := run.eng.resolveInvoke(run, st, recv, c); fn != nil {
+			if mode, _ := run.eng.callMode(fn); mode != "unknown" {
+				return run.callFunction(st, in, b, idx, fn, nil, run.invokeArgs(st, fn, recv, args[1:]))
+			}
+		}
 		fc := run.eng.ifaceContract(c)
 		if fc == nil {
-			// dispatch on a statically known dynamic type?
 			if fn := run.eng.resolveInvoke(run, st, recv, c); fn != nil {
 				return run.callFunction(st, in, b, idx, fn, nil, run.invokeArgs(st, fn, recv, args[1:]))
 			}
@@ -143,6 +148,7 @@ func (run *FuncRun) callFunction(st *State, in *ssa.Call, b *ssa.BasicBlock, idx
 			run.usedContracts[fc.Key] = true
 		}
 		var recvT types.Type
+		run.pendingBindings = bindings
 		res := run.applyContract(st, fc, fn.Signature, recvT, args, in, fn)
 		run.set(st, in, res)
 		return true
@@ -362,6 +368,11 @@ func (env *CEnv) assignSetOfItems(items []AssignItem, where string) *assignSet {
 				as.anyFields[comp] = map[int]bool{}
 			}
 			as.anyFields[comp][fi] = true
+		case "gstate":
+			x := env.eval(it.X)
+			comp := "Ghost:" + it.Name
+			as.comps[comp] = ArrSort(SInt, SInt)
+			as.whole[comp] = append(as.whole[comp], x.T)
 		case "global":
 			as.globals[it.Name] = true
 		case "var":
@@ -544,6 +555,15 @@ func (run *FuncRun) applyContract(st *State, fc *FuncContract, sig *types.Signat
 	if callee != nil {
 		env.tsubst = eng.typeSubstFor(callee)
 	}
+	// captured variables of a closure called through its contract
+	if callee != nil && len(callee.FreeVars) > 0 && len(run.pendingBindings) == len(callee.FreeVars) {
+		for i, fv := range callee.FreeVars {
+			if t, ok := run.pendingBindings[i].(Term); ok {
+				env.vars["&"+fv.Name()] = CVal{T: t, Type: fv.Type()}
+			}
+		}
+	}
+	run.pendingBindings = nil
 	// bind parameters
 	names, ptypes := eng.paramNames(fc, sig, recvIface, callee)
 	if len(names) != len(args) {
